@@ -139,7 +139,7 @@ func VerifC10_Rejected() {
 // sprints (flow deleted, waiting node deleted, node lost its router or its
 // wait) cannot be resumed: every resume type ends it as failed with a
 // failure event and every run exited — nil Go error, no panic.
-// cover: flow-missing, node-gone, no-router, no-wait, parent-flow-missing
+// cover: flow-missing, node-gone, no-router, no-wait, parent-flow-missing, parent-node-gone
 func VerifC10_AssetFaults() {
 	sa := verifNewAssets()
 	// F0: wait node, then a node entering F1; F1: one wait node
@@ -158,7 +158,7 @@ func VerifC10_AssetFaults() {
 	zzverif.Assert(err == nil && sess.Status() == flows.SessionStatusWaiting, "setup: session not waiting")
 	s := sess.(*session)
 	w := s.waitingRun()
-	fault := zzverif.Choice("fault", 5)
+	fault := zzverif.Choice("fault", 6)
 	switch fault {
 	case 0:
 		zzverif.Cover("flow-missing")
@@ -172,16 +172,28 @@ func VerifC10_AssetFaults() {
 	case 3:
 		zzverif.Cover("no-wait")
 		runs.VerifSetFlow(w, verifBuildFlow(waitingFlow, []verifNodeSpec{{kind: vkSwitch, dests: [3]int{-1, -1, -1}, hasDef: true}}))
-	default:
+	case 4:
 		// the waiting run is fine but its parent's flow is gone
 		if !child {
 			return
 		}
 		zzverif.Cover("parent-flow-missing")
 		runs.VerifSetFlow(s.runs[0], nil)
+	default:
+		// the waiting run is fine, its parent's flow is still there, but the node the parent is paused on is gone
+		if !child {
+			return
+		}
+		zzverif.Cover("parent-node-gone")
+		runs.VerifSetFlow(s.runs[0], verifFlowOf(0, verifPlainNodeWithActions(0, 5, -1)))
 	}
-	sp, err := s.Resume(verifResume(zzverif.Choice("resume-type", 3)))
+	kind := zzverif.Choice("resume-type", 3)
+	sp, err := s.Resume(verifResume(kind))
 	zzverif.Assert(err == nil, "resuming against changed assets returned a Go error")
+	if fault == 5 && kind == 0 {
+		// the child leaves its wait and exits; its parent cannot be resumed
+		zzverif.Assert(s.status == flows.SessionStatusFailed && verifHasFailure(sp), "a session whose parent run cannot be resumed (its node is gone) did not end as failed with a failure event")
+	}
 	if fault < 4 {
 		zzverif.Assert(s.status == flows.SessionStatusFailed, "session whose resumption is impossible did not fail")
 		zzverif.Assert(verifHasFailure(sp), "impossible resumption did not produce a failure event")
